@@ -146,7 +146,7 @@ func TestVerifC17(t *testing.T) {
 					ssa := ssav == 1
 					cfg := c17Cfg{FieldPaths: fpaths, Customize: cust, Finalize: fin, SSA: ssa, Verbose: ssav == 2}
 					// history: bring up, edit template (2 live revisions), second edit (3), delete parent (finalize)
-					steps := []string{"sync", "sync", "sync", "edit-v2", "sync", "sync", "edit-v3", "sync", "sync", "delete", "sync", "sync"}
+					steps := []string{"sync", "sync", "sync", "edit-v2", "sync", "sync", "edit-v3", "sync", "unmatch-child", "sync", "sync", "delete", "sync", "sync"}
 					// fault position: -1 none, else the k-th request of the run fails with 500 (every position)
 					base := c17Build(cfg, []string{"p"})
 					total := c17History(base, steps, -1, nil)
@@ -203,6 +203,16 @@ func c17History(w *cworld, steps []string, faultAt int, bad func(key, msg string
 				kit.Field(o, strings.TrimPrefix(st, "edit-"), "spec", "template", "ver")
 				kit.Field(o, kit.M{"deep": kit.M{"x": int64(len(st))}}, "spec", "template", "extra")
 			})
+			w.DeliverAll()
+		case "unmatch-child":
+			// somebody relabels an owned child out of the selector: the next sync releases it (a write that starts
+			// from the cached child)
+			for _, c := range w.Sim.All(kit.Widget) {
+				if kit.ControllerUID(c) == "uid-p" {
+					w.Sim.Edit(kit.Widget, "n1", kit.Name(c), func(o map[string]interface{}) { kit.Labels(o, "own", "somebody-else") })
+					break
+				}
+			}
 			w.DeliverAll()
 		case "delete":
 			w.Sim.ExternalDelete(kit.Thing, "n1", "p", "Background")
